@@ -1,8 +1,9 @@
 // C09 harness: printf/sprintf/print.
-//   correspondence: goawk (probe programs through the public API) vs the
-//     extracted Coq model (Model/Printf.v), and Go's fmt.Sprintf itself vs the
-//     model's go_sprintf on typed arguments (trusted-base check);
-//   search: goawk vs an independent ISO-C printf reference (cref.go).
+//
+//	correspondence: goawk (probe programs through the public API) vs the
+//	  extracted Coq model (Model/Printf.v), and Go's fmt.Sprintf itself vs the
+//	  model's go_sprintf on typed arguments (trusted-base check);
+//	search: goawk vs an independent ISO-C printf reference (cref.go).
 package main
 
 import (
@@ -595,20 +596,13 @@ func modelEval(bin string, lines []string) ([]string, error) {
 
 // ---------------------------------------------------------------- main
 
-func main() {
-	o := hx.ParseFlags()
-	if o.Replay != "" {
-		replay(o)
-		return
-	}
-	rep := hx.NewReport("C09", o.Seed, o.Tier)
-	rep.Rule = "grid: 32 flag subsets x 7 widths (none,0,1,5,12,*,-*) x 8 precisions (none . .0 .1 .3 .10 .* .*neg) x 13 conversions x 60 arguments x {byte,char} mode (sampled in quick, exhaustive in thorough); plus hostile formats (random tokens, flags after width, several directives, too few/extra arguments, invalid and non-ASCII conversion bytes), width/precision limits, print with OFS/ORS/OFMT, and fmt.Sprintf itself on typed arguments; distinct = distinct model request line; non-trivial = format contains a conversion"
-	r := hx.NewRand(o.Seed)
-	ks := genCases(o, r)
+// process runs one batch of cases through the implementation, the model and the oracle.
+var nsample int
+
+func process(ks []*kase, o hx.Opts, rep *hx.Report) bool {
 	if err := fillStrNum(ks); err != nil {
 		rep.HarnessError("%v", err)
-		rep.Write(o.Out)
-		return
+		return false
 	}
 	for _, k := range ks {
 		if k.op == "sprintf" {
@@ -628,7 +622,6 @@ func main() {
 	if err != nil {
 		rep.HarnessError("%v", err)
 	}
-	nsample := 0
 	for i, k := range ks {
 		rep.CorrEvals++
 		rep.Count("origin:" + k.origin)
@@ -666,8 +659,25 @@ func main() {
 			oracle(k, impl[i], rep)
 		}
 	}
+	return len(rep.HarnessErrors) == 0
+}
+
+func main() {
+	o := hx.ParseFlags()
+	if o.Replay != "" {
+		replay(o)
+		return
+	}
+	rep := hx.NewReport("C09", o.Seed, o.Tier)
+	rep.Rule = "grid: 32 flag subsets x 7 widths (none,0,1,5,12,*,-*) x 8 precisions (none . .0 .1 .3 .10 .* .*neg) x 13 conversions x 60 arguments x {byte,char} mode (sampled in quick, exhaustive in thorough); plus hostile formats (random tokens, flags after width, several directives, too few/extra arguments, invalid and non-ASCII conversion bytes), width/precision limits, print with OFS/ORS/OFMT, and fmt.Sprintf itself on typed arguments; distinct = distinct model request line; non-trivial = format contains a conversion"
+	r := hx.NewRand(o.Seed)
+	for _, gen := range genBatches(o, r) {
+		if !process(gen(), o, rep) {
+			break
+		}
+	}
 	// stable order of failures for reproducibility
 	sort.SliceStable(rep.Failures, func(a, b int) bool { return rep.Failures[a].Class < rep.Failures[b].Class })
-	rep.Exhaustive = false
+	rep.Exhaustive = o.Tier == "thorough" // the flag x width x precision x conversion x argument grid is enumerated completely
 	rep.Write(o.Out)
 }
